@@ -17,7 +17,8 @@ import (
 var (
 	c10Histories  = flag.Int("c10.histories", 0, "C10 stress: number of free-running histories (0 = 200 quick / 3000 thorough)")
 	c10OpBudget   = flag.Int("c10.ops", 300, "C10 stress: cap on workers x operations per history")
-	c10LinTimeout = flag.Duration("c10.lintimeout", 30*time.Second, "C10: porcupine timeout per history (a timeout is inconclusive)")
+	c10Exact      = flag.Duration("c10.exacttimeout", 400*time.Millisecond, "C10 stress: porcupine budget for the whole history before the per-subtree projections are judged instead")
+	c10LinTimeout = flag.Duration("c10.lintimeout", 20*time.Second, "C10: porcupine timeout per history (a timeout is inconclusive)")
 	c10Stall      = flag.Duration("c10.stall", 60*time.Second, "C10 stress: real time after which unjoined workers are inspected for a deadlock")
 	c10Confirm    = flag.Duration("c10.confirm", 5*time.Second, "C10 stress: distance between the two goroutine dumps of the deadlock test")
 	c10DumpSlow   = flag.String("c10.dumpslow", "", "C10 stress (diagnostics): write the history with the slowest linearizability check to this file")
@@ -126,7 +127,7 @@ func TestC10Stress(t *testing.T) {
 
 	rng := rand.New(rand.NewSource(*vstat.Seed))
 	var worst, total time.Duration
-	worstOps, inconclusive, judged := 0, 0, 0
+	worstOps, inconclusive, judged, partitioned, twoStep := 0, 0, 0, 0, 0
 	for i := 0; i < n && violations < 3; i++ {
 		w := genWorkload(rng, i, *c10OpBudget)
 		w.Seed = *vstat.Seed
@@ -150,7 +151,7 @@ func TestC10Stress(t *testing.T) {
 			return
 		}
 		raceVerdict(h)
-		v := judge(h, *c10LinTimeout)
+		v := judge(h, *c10Exact, *c10LinTimeout)
 		if v.linTime > worst {
 			worst, worstOps = v.linTime, v.linOps
 			if *c10DumpSlow != "" {
@@ -166,6 +167,14 @@ func TestC10Stress(t *testing.T) {
 		}
 		judged++
 		cl := classify(h)
+		if v.partitioned {
+			partitioned++
+			cl.add("judged-on-subtree-projections")
+		}
+		if v.twoStep {
+			twoStep++
+			cl.add("two-step-getleafvalue-model-consulted")
+		}
 		rec.CaseHash(vstat.Hash(h.Ops), cl.nontrivial, func() any {
 			s := stressSample{Seed: h.Seed, Index: h.Index, Workers: h.Workers, TotalOps: len(h.Ops), FirstOps: h.Ops}
 			if len(s.FirstOps) > 30 {
@@ -181,8 +190,8 @@ func TestC10Stress(t *testing.T) {
 		}
 	}
 	if judged > 0 {
-		rec.Note("stress: %d histories judged, %d inconclusive; worst linearizability check %v (%d model operations), mean %v; schedules are the real scheduler's and are not reproducible, replay files hold the recorded history",
-			judged, inconclusive, worst.Round(time.Microsecond), worstOps, (total / time.Duration(judged)).Round(time.Microsecond))
+		rec.Note("stress: %d histories judged (%d of them on per-subtree projections after the whole-history check exceeded %v), %d inconclusive; worst linearizability check %v (%d model operations), mean %v; schedules are the real scheduler's and are not reproducible, replay files hold the recorded history",
+			judged, partitioned, *c10Exact, inconclusive, worst.Round(time.Microsecond), worstOps, (total / time.Duration(judged)).Round(time.Microsecond))
 	}
 	if len(raceClasses) > 0 {
 		var cs []string
@@ -254,7 +263,7 @@ func replayC10(rf *vstat.ReplayFile) string {
 				fmt.Println("NOTE: inconclusive:", stuck)
 				return ""
 			}
-			if v := judge(h, *c10LinTimeout); v.class != "" {
+			if v := judge(h, *c10Exact, *c10LinTimeout); v.class != "" {
 				return v.class + ": " + v.msg
 			}
 			for _, rep := range rl.fresh() {
@@ -270,7 +279,7 @@ func replayC10(rf *vstat.ReplayFile) string {
 			return "bad history: " + err.Error()
 		}
 		fmt.Println("NOTE: recorded free-running history: the schedule cannot be reproduced, the history is re-judged by the oracles")
-		v := judge(&h, *c10LinTimeout)
+		v := judge(&h, *c10Exact, *c10LinTimeout)
 		switch {
 		case v.class != "":
 			return v.class + ": " + v.msg
